@@ -210,7 +210,10 @@ def gen_c10(rng: random.Random, tier: str) -> Plan:
                         "steps": rng.randint(1, 3), "loss": rng.choice(["tanh", "tanh", "nll"]),
                         "seed": _seed(rng)})
         elif r < 0.60:
-            ops.append({"op": "reset", "target": rng.choice(m.names), "seed": _seed(rng)})
+            o = {"op": "reset", "target": rng.choice(m.names), "seed": _seed(rng)}
+            if faults and rng.random() < 0.3:
+                o["fault"] = {"at": rng.randrange(0, 12), "when": rng.choice(["before", "after"])}
+            ops.append(o)
         elif r < 0.68:
             ops.append({"op": "save", "target": rng.choice(m.names), "slot": f"s{rng.randrange(3)}"})
         elif r < 0.76:
@@ -219,8 +222,10 @@ def gen_c10(rng: random.Random, tier: str) -> Plan:
             d = _gen_derive(rng, m, domain=domain, poly=poly, allow_fault=faults)
             if d is not None:
                 ops.append(d)
-        elif r < 0.93:
+        elif r < 0.91:
             ops.append({"op": "recompile", "target": rng.choice(m.names)})
+        elif r < 0.94:
+            ops.append({"op": "mode", "target": rng.choice(m.names), "train": rng.random() < 0.4})
         else:
             ops.append({"op": "eval", "target": rng.choice(m.names),
                         "batch": rng.choice([1, 2, 4, 7]), "seed": _seed(rng)})
@@ -503,6 +508,8 @@ def gen_c19(rng: random.Random, tier: str) -> Plan:
             d = _gen_derive(rng, m, domain=domain, poly=poly, allow_fault=False)
             if d is not None:
                 ops.append(d)
+        elif r < 0.97:
+            ops.append({"op": "mode", "target": rng.choice(m.names), "train": rng.random() < 0.4})
         else:
             ops.append({"op": "eval", "target": rng.choice(m.names), "batch": rng.choice([1, 2, 5]),
                         "seed": _seed(rng)})
